@@ -385,3 +385,45 @@ Theorem C09J_P_from_any_consistent_state : forall ops ps st, JInv st -> PInv ps 
 Proof. exact P_from_model. Qed.
 Print Assumptions C09J_P_on_every_model_trace.
 Print Assumptions C09J_P_from_any_consistent_state.
+
+(* (4) Nothing outlives its owner at the gateway, for every history.
+   C09J_gone_forever: an id handed out that is out of mcu.clients stays out for every continuation, and at the end of the
+   continuation nothing of it is at the gateway when nothing of it was there at the start or the continuation contains
+   a reconnect.
+   C09J_closeall_nothing_outlives: in any history, after OCloseAll owner, for every client the owner had at that point:
+   at every later point it is out of mcu.clients and of mcu.publishers; and no handle and no room at the gateway belongs
+   to it -- provided the gateway answered when OCloseAll was executed and the client was still open then, or there has
+   been a reconnect since.   C09J_close_nothing_outlives: the same for OClose c (nothing refused).
+   The proviso "still open then" cannot be dropped (C09J_closeall_while_up_all_clients_refuted): newpub(1,video);
+   gwdown; close(1); gwup; closeall(1) -- the gateway answers when closeall(1) runs, and handle 1 and room 1 are still
+   there afterwards (the Close met an unreachable gateway, a second Close does nothing); they go with the next
+   reconnect or restart (C09J_left_until_forgotten).  P_C09J exempts exactly these (clause (b)). *)
+Theorem C09J_gone_forever : forall ops st c, JInv st -> 0 < c < m_next st -> memN c (m_clients st) = false ->
+  memN c (m_clients (run_from st ops)) = false /\
+  ((memN c (g_handles st) = false /\ memN c (g_rooms st) = false) \/ (exists f, In (OReconnect f) ops) ->
+   memN c (g_handles (run_from st ops)) = false /\ memN c (g_rooms (run_from st ops)) = false).
+Proof. exact gone_forever. Qed.
+Theorem C09J_closeall_nothing_outlives : forall ops1 ow ops2 x,
+  let st0 := run ops1 in let st2 := run (ops1 ++ OCloseAll ow :: ops2) in
+  In x (m_objs st0) -> c_owner x = ow ->
+  memN (c_id x) (m_clients st2) = false /\ (forall k, ~ In (k, c_id x) (m_pubs st2)) /\
+  ((reachable st0 = true /\ c_closed x = false) \/ (exists f, In (OReconnect f) ops2) ->
+   memN (c_id x) (g_handles st2) = false /\ memN (c_id x) (g_rooms st2) = false).
+Proof. exact closeall_nothing_outlives. Qed.
+Theorem C09J_close_nothing_outlives : forall ops1 c rd rt ops2,
+  let st0 := run ops1 in let st2 := run (ops1 ++ OClose c rd rt :: ops2) in
+  get_obj st0 c <> None ->
+  memN c (m_clients st2) = false /\ (forall k, ~ In (k, c) (m_pubs st2)) /\
+  ((reachable st0 = true /\ rd = false /\ rt = false /\ memN c (m_clients st0) = true) \/ (exists f, In (OReconnect f) ops2) ->
+   memN c (g_handles st2) = false /\ memN c (g_rooms st2) = false).
+Proof. exact close_nothing_outlives. Qed.
+Theorem C09J_closeall_while_up_all_clients_refuted :
+  reachable (run leftover_history) = true /\
+  (exists x, In x (m_objs (run leftover_history)) /\ c_owner x = 1 /\ c_id x = 1) /\
+  let st2 := run (leftover_history ++ [OCloseAll 1]) in
+  reachable st2 = true /\ memN 1 (g_handles st2) = true /\ memN 1 (g_rooms st2) = true /\ memN 1 (m_clients st2) = false.
+Proof. exact closeall_while_up_all_clients_refuted. Qed.
+Print Assumptions C09J_gone_forever.
+Print Assumptions C09J_closeall_nothing_outlives.
+Print Assumptions C09J_close_nothing_outlives.
+Print Assumptions C09J_closeall_while_up_all_clients_refuted.
